@@ -15,7 +15,7 @@
        exists levels, louvain_partitions g weighted res thr perms = Ok levels /\
                       levels_ok (names g) levels /\ modularity non-decreasing along levels. *)
 From Coq Require Import List Bool ZArith QArith.
-From GV Require Import Base.Outcome Model.GState Model.Louvain Spec.PartitionDef
+From GV Require Import Base.Outcome Base.AMap Model.GState Model.Louvain Spec.PartitionDef
      Proofs.PartitionOk Proofs.LouvainOk Proofs.MoveGainOk Proofs.AggregationOk.
 Import ListNotations.
 
@@ -59,6 +59,25 @@ Section C13.
     gain_d teqb es gamma u D < gain_d teqb es gamma u C ->
     newman teqb true es gamma ((u :: D) :: C :: rest) < newman teqb true es gamma (D :: (u :: C) :: rest).
   Proof. exact (accepted_move_increases_Q_directed teqb teqb_spec). Qed.
+
+  (* the state-level model's decision: if, when it visits u, its bookkeeping agrees with the edge
+     multiset (m, degree, Stot of the two communities, candidate weights = [between]; invariants
+     L1-L3, evaluated on every generated case as observation 77), then a move it decides strictly
+     increases Newman's modularity *)
+  Theorem C13_model_move_increases_Q :
+    forall (es : list (T * T * Q)) gamma (u : T) C D rest di m own bc w2c tie sC sD,
+      NoDup (map fst w2c) ->
+      update_best_com own w2c di m gamma false = Ok (bc, tie) -> bc <> own ->
+      ~ In u C -> ~ In u D -> 0 < total_w es ->
+      m == total_w es -> degree di == K_of teqb es [u] ->
+      nth_error (stot di) bc = Some sC -> sC == K_of teqb es C ->
+      nth_error (stot di) own = Some sD -> sD == K_of teqb es D ->
+      (forall w, In (bc, w) w2c -> w == between teqb es u C) ->
+      (forall w, In (own, w) w2c -> w == between teqb es u D) ->
+      (~ In own (map fst w2c) -> between teqb es u D == 0) ->
+      0 <= gamma * (K_of teqb es D * K_of teqb es [u]) ->
+      newman teqb false es gamma ((u :: D) :: C :: rest) < newman teqb false es gamma (D :: (u :: C) :: rest).
+  Proof. exact (model_move_increases_Q teqb teqb_spec). Qed.
 
   (* aggregation: relabel every edge by the communities of its ends, merge parallel edges by summing
      (self-loops included), smaller name first when undirected *)
